@@ -8,8 +8,11 @@ import (
 	"github.com/trustbloc/sidetree-core-go/pkg/dochandler"
 	"github.com/trustbloc/sidetree-core-go/pkg/processor"
 
+	"github.com/trustbloc/sidetree-core-go/pkg/api/operation"
 	"github.com/trustbloc/sidetree-core-go/pkg/api/protocol"
+	"github.com/trustbloc/sidetree-core-go/pkg/api/txn"
 	"github.com/trustbloc/sidetree-core-go/pkg/versions/1_0/operationparser"
+	"github.com/trustbloc/sidetree-core-go/pkg/versions/1_0/txnprocessor"
 
 	"verifharness/hx"
 	"verifharness/ref"
@@ -229,6 +232,7 @@ func checkC05(c *hx.Ctx) {
 	c.Floor("writer_runs_with_stale_old_operation", 10)
 	c05InterimCopies(c)
 	c.Floor("interim_copies_resolved_in_window", 10)
+	c.Floor("interim_copies_superseded_by_an_out_of_window_anchoring", 10)
 	c05TwoVersions(c)
 	c.Floor("two_version_points_where_versions_disagree", 20)
 	c.Floor("out_of_window_with_interim_copy", 100)
@@ -389,5 +393,41 @@ func c05InterimCopies(c *hx.Ctx) {
 		}
 		c.Count("interim_copies_resolved_in_window")
 		c.Distinct(fmt.Sprintf("interim|%s|%d", kind, k%3))
+		// the operation is then anchored OUTSIDE its window, in a batch that also carries a create of another DID; the node's
+		// transaction processor cleans interim copies of updates, recovers and deactivates (not of creates). From then on the
+		// anchored operation alone counts: out of window (update: commitment consumed, document unchanged; deactivate: ignored;
+		// recover: as the model says) - the interim copy, stamped inside the window, is gone
+		cas := hx.NewMemCAS()
+		subset := []operation.Type{operation.TypeUpdate, operation.TypeRecover, operation.TypeDeactivate}
+		va := hx.NewVersion(p, hx.VersionOpts{CAS: cas, Store: store, TxnProcOpts: []txnprocessor.Option{txnprocessor.WithUnpublishedOperationStore(unpub, subset)}})
+		dy, cry, yerr := NewCDid(r.Split("other"), ref.SHA256, []string{"P-256"}, int64(p.MaxOperationTimeDelta), false, []interface{}{patchAddKeys(genKeyEntry(r, "ky"))}, nil, "o", "")
+		if yerr != nil {
+			panic(yerr)
+		}
+		dy.Suffix = suffixOf(cry.Req, ref.SHA256)
+		info, perr := va.Handler.PrepareTxnFiles([]*operation.QueuedOperation{
+			{Type: operation.TypeCreate, OperationRequest: cry.Req, UniqueSuffix: dy.Suffix, Namespace: hx.Namespace},
+			{Type: operation.Type(b.Desc.Type), OperationRequest: b.Req, UniqueSuffix: d.Suffix, Namespace: hx.Namespace}})
+		if perr != nil {
+			c.Violation("C05 the operation handler refused a batch of two valid operations: "+perr.Error(), nil)
+			return
+		}
+		tOut := uint64(now + 200000 + 1000)
+		if until == 0 {
+			tOut = uint64(from + int64(p.MaxOperationTimeDelta) + 1000)
+		}
+		if _, terr := va.TxnProc.Process(txn.SidetreeTxn{Namespace: hx.Namespace, AnchorString: info.AnchorString, TransactionTime: tOut, TransactionNumber: 1, ProtocolVersion: p.GenesisTime, CanonicalReference: "ref1"}); terr != nil {
+			c.Violation("C05 the transaction cannot be processed: "+terr.Error(), nil)
+			return
+		}
+		anchored := append(append([]*ref.Op{}, H...), Place(&desc, tOut, 1, "ref1", 0))
+		st2, merr2 := ref.Resolve(anchored, ref.ResolveOpts{})
+		rm2, rerr2 := proc.Resolve(d.Suffix)
+		if want2, got2 := stKey(st2, merr2), rmKey(rm2, rerr2); want2 != got2 || unpub.Len() != 0 {
+			c.Violation(fmt.Sprintf("C05 a %s with window [%d,%d] accepted in time but anchored at %d (outside): once the transaction is processed only the anchored operation counts (%d interim copies left in the unpublished-operation store)\n   model:   %s\n   library: %s", kind, from, until, tOut, unpub.Len(), want2, got2),
+				map[string]interface{}{"request": string(b.Req), "anchored_at": tOut, "model": want2, "library": got2})
+			return
+		}
+		c.Count("interim_copies_superseded_by_an_out_of_window_anchoring")
 	}
 }
